@@ -117,10 +117,21 @@ class Node:
                 for n in self.attr_names
                 if showemptyattrs or not is_empty(getattr(self, n))
             ]
+            def one_line(v):
+                # An attribute can hold nodes (e.g. the Alignas nodes in
+                # Decl.align), whose repr spans several lines; keep the
+                # output at one line per node.
+                s = f"{v}"
+                if "\n" in s:
+                    s = " ".join(line.strip() for line in s.splitlines())
+                return s
+
             if attrnames:
-                attrstr = ", ".join(f"{name}={value}" for name, value in nvlist)
+                attrstr = ", ".join(
+                    f"{name}={one_line(value)}" for name, value in nvlist
+                )
             else:
-                attrstr = ", ".join(f"{value}" for _, value in nvlist)
+                attrstr = ", ".join(one_line(value) for _, value in nvlist)
             buf.write(attrstr)
 
         if showcoord:
